@@ -18,4 +18,20 @@ def npIndex {α : Type} (a : List α) : CurIdx → Except Err (List α)
   | .mask m => if a.length = m.length then .ok (maskSel a m) else .error .index
   | .arange k => if k ≤ a.length then .ok (a.take k) else .error .index
 
+/-- the wrapper object as Python sees it: every attribute is absent until it is assigned (`sample_weight_` may be assigned `None`) -/
+structure WObj (C L W : Type) where
+  clf_ : Option C := none
+  idx_ : Option (List Int) := none
+  y_ : Option (List L) := none
+  sample_weight_ : Option (Option (List W)) := none
+  base_clf_ : Option C := none
+  base_idx_ : Option (List Int) := none
+  base_y_ : Option (List L) := none
+  base_sample_weight_ : Option (Option (List W)) := none
+
+/-- reading an attribute: `AttributeError` while it has not been assigned -/
+def attr {α : Type} : Option α → Except Err α
+  | some a => .ok a
+  | none => .error .attr
+
 end Ska.PyIW
